@@ -274,3 +274,14 @@ def strict_equal(a, b):
         elif x != y:
             return False
     return True
+
+
+def depth(v):
+    """Container nesting depth of v (a scalar: 0, [] : 1, [[1]] : 2); iterative."""
+    best, stack = 0, [(v, 1)]
+    while stack:
+        x, d = stack.pop()
+        if isinstance(x, (dict, list)):
+            best = max(best, d)
+            stack.extend((c, d + 1) for c in (x.values() if isinstance(x, dict) else x))
+    return best
